@@ -5,6 +5,7 @@ lena.core.FillRequestSeq, the fill/request branch of lena.core.Split.run.
 Model: lean/LenaModel/Model/C16.lean, theorems lean/LenaModel/Props/C16.lean.
 """
 import itertools
+import sys
 import time
 
 from harness.common import exc_name
@@ -94,13 +95,20 @@ def caps_of(kind, has_reset):
     raise ValueError(kind)
 
 
-def make_el(kind, k, mut, has_reset, caps=None):
+def make_el(kind, k, mut, has_reset, caps=None, stop=None, stores=False):
     """An element whose fill appends to a list v; request/compute/run yield [j]+v for j<k and then
-    (mut) append -1 to v; kind 'map': run yields [x+100] per value and keeps no state."""
+    (mut) append -1 to v; kind 'map': run yields [x+100] per value and keeps no state.
+    stop: fill raises LenaStopFill for every value >= stop (after storing it if `stores`).
+    request/compute/run are generator functions: their bodies run when they are iterated."""
     e = _E()
     e.v = []
 
     def fill(x):
+        if stop is not None and x >= stop:
+            if stores:
+                e.v.append(x)
+            import lena.core
+            raise lena.core.LenaStopFill()
         e.v.append(x)
 
     def gen():
@@ -149,6 +157,81 @@ def _kw(case):
     return kw
 
 
+class _PreMulti(object):
+    """a Run element that can break the flow, before the FillRequest element of a FillRequestSeq: nothing for
+    multiples of 3, x+10 and x+20 for other odd values, x+10 otherwise (FillInto._run_fill_into)"""
+    _can_break_flow = True
+
+    def run(self, flow):
+        for x in flow:
+            if x % 3 == 0:
+                continue
+            yield x + 10
+            if x % 2 == 1:
+                yield x + 20
+
+
+class _PostMulti(object):
+    """a Run element after the FillRequest element: two results per result"""
+
+    def run(self, flow):
+        for r in flow:
+            yield r + [99]
+            yield r + [98]
+
+
+def _code(v):
+    """pre/post code: False/None/0 none, True/1 a function, 2 a Run element yielding 0..2 values per value"""
+    return 2 if v == 2 and v is not True else (1 if v else 0)
+
+
+def pre_ref(code, x):
+    if code == 0:
+        return [x]
+    if code == 1:
+        return [x + 10]
+    return [] if x % 3 == 0 else ([x + 10, x + 20] if x % 2 == 1 else [x + 10])
+
+
+def post_ref(code, r):
+    if code == 0:
+        return [r]
+    if code == 1:
+        return [r + [99]]
+    return [r + [99], r + [98]]
+
+
+def _lazy_adapter_class():
+    """Python reference for `Eval.atRequest` of Model/C16X.lean: the real FillRequest, except that fill() stores the
+    generator object of the element in _buffer_out and request() chains the stored objects (the change of seeded/C16-C).
+    Used only to validate the model's account of generator objects against real Python generators."""
+    import lena.core
+
+    class LazyFillRequest(lena.core.FillRequest):
+        def fill(self, value):
+            if self._n_count == self.bufsize:
+                if self._buffer_input:
+                    self._buffer_in.append(value)
+                    return
+                self._buffer_out.append(self._el_request())
+                if self._reset:
+                    self._el_reset()
+                self._n_count = 0
+            self._el_fill(value)
+            self._n_count += 1
+
+        def request(self):
+            if not self._buffer_input:
+                buffer_out = self._buffer_out
+                self._buffer_out = []
+                for val in itertools.chain.from_iterable(buffer_out):
+                    yield val
+            for val in lena.core.FillRequest.request(self):
+                yield val
+
+    return LazyFillRequest
+
+
 def make_adapter(case):
     """The real adapter for a run/ops/split case."""
     import lena.core
@@ -156,14 +239,16 @@ def make_adapter(case):
     if kind == "frseq":
         el = make_el("fr", case["k"], case["mut"], True)
         args = []
-        if case.get("pre"):
-            args.append(lambda x: x + 10)
+        pre, post = _code(case.get("pre")), _code(case.get("post"))
+        if pre:
+            args.append((lambda x: x + 10) if pre == 1 else _PreMulti())
         args.append(el)
-        if case.get("post"):
-            args.append(lambda r: r + [99])
+        if post:
+            args.append((lambda r: r + [99]) if post == 1 else _PostMulti())
         return lena.core.FillRequestSeq(*args, **_kw(case))
-    el = make_el(kind, case["k"], case["mut"], case["hr"])
-    return lena.core.FillRequest(el, **_kw(case))
+    el = make_el(kind, case["k"], case["mut"], case["hr"], stop=case.get("stop"), stores=bool(case.get("stores")))
+    cls = _lazy_adapter_class() if case.get("ev") == "request" else lena.core.FillRequest
+    return cls(el, **_kw(case))
 
 
 def _ops_of(case):
@@ -234,21 +319,98 @@ def _unlimit_memory(old):
             pass
 
 
+# ---- step watchdog: executed lines of lena code ------------------------------------------------------
+# sys.monitoring (CPython >= 3.12) LINE events, local to the code objects of the anchored modules, are counted while
+# a case runs.  A case of this check feeds at most ~50 values / calls; the real code executes a few thousand lines
+# for it.  When STEP_BUDGET lines have been executed the call is declared not to return: _StepBudget (a
+# BaseException, so no `except Exception` of lena or of the harness can swallow it) is raised from the callback,
+# inside the looping code.  A spinning implementation is thus reported in about a second instead of after the
+# wall-clock watchdog (5 s + a 50 s confirmation); the wall-clock timer stays as the backstop (loops inside C code).
+STEP_BUDGET = 3_000_000
+_STEP_TOOL = 4            # a free sys.monitoring tool id (0 debugger, 1 coverage [used by common], 2 profiler, 5 optimizer)
+_STEPS = {"n": 0, "on": None}
+
+
+class _StepBudget(BaseException):
+    pass
+
+
+def _code_objects(mod):
+    import types
+    seen, out = set(), []
+
+    def walk_code(co):
+        if id(co) in seen:
+            return
+        seen.add(id(co))
+        out.append(co)
+        for c in co.co_consts:
+            if isinstance(c, types.CodeType):
+                walk_code(c)
+
+    def walk(obj, depth=0):
+        if isinstance(obj, types.FunctionType):
+            if obj.__module__ == mod.__name__:
+                walk_code(obj.__code__)
+        elif isinstance(obj, type) and obj.__module__ == mod.__name__ and depth < 3:
+            for v in vars(obj).values():
+                walk(getattr(v, "__func__", v), depth + 1)
+
+    for v in vars(mod).values():
+        walk(v)
+    return out
+
+
+def _steps_start():
+    """count LINE events in lena.core.adapters / split / fill_request_seq / fill_seq; returns False if unavailable"""
+    if _STEPS["on"] is not None:
+        return _STEPS["on"]
+    _STEPS["on"] = False
+    mon = getattr(sys, "monitoring", None)
+    if mon is None:
+        return False
+    try:
+        import lena.core.adapters, lena.core.split, lena.core.fill_request_seq, lena.core.fill_seq
+        mon.use_tool_id(_STEP_TOOL, "verif-c16-steps")
+
+        def on_line(code, line):
+            _STEPS["n"] += 1
+            if _STEPS["n"] > STEP_BUDGET:
+                _STEPS["n"] = 0
+                raise _StepBudget()
+
+        mon.register_callback(_STEP_TOOL, mon.events.LINE, on_line)
+        for m in (lena.core.adapters, lena.core.split, lena.core.fill_request_seq, lena.core.fill_seq):
+            for co in _code_objects(m):
+                mon.set_local_events(_STEP_TOOL, co, mon.events.LINE)
+        _STEPS["on"] = True
+    except Exception:
+        _STEPS["on"] = False
+    return _STEPS["on"]
+
+
 def run_impl(case):
     if (_HANGS["cpu"] >= _HANG_LIMIT or _HANGS["mem"] >= _MEM_LIMIT) and case["op"] != "init":
         return {"skipped": f"{_HANGS['cpu']} calls of the real code hung and {_HANGS['mem']} ran out of memory "
                            "in this process before"}
     import lena.core    # before the memory limit: the first import maps shared libraries
+    _steps_start()
+    _STEPS["n"] = 0
     t0 = time.process_time()
     old = _limit_memory()
     try:
         res = _run_impl(case)
+    except _StepBudget:
+        _HANGS["cpu"] += 1
+        return {"hang": f"more than {STEP_BUDGET} lines of lena.core.adapters/split/fill_request_seq executed "
+                        "without returning (step watchdog)"}
     except BaseException as e:
         # common.CaseTimeout; counted only if the case itself used the CPU (not a stalled machine)
         if type(e).__name__ == "CaseTimeout" and time.process_time() - t0 > 0.7 * CASE_TIMEOUT:
             _HANGS["cpu"] += 1
         raise
     finally:
+        _STEPS["n"] = 0
         _unlimit_memory(old)
     if isinstance(res, dict) and res.get("e") == "Other:MemoryError":
         _HANGS["mem"] += 1
@@ -294,6 +456,37 @@ def _run_impl(case):
         except Exception as e:
             res["run"] = {"e": exc_name(e)}
         return res
+    if op == "opsx":
+        # a caller that catches LenaStopFill (as Split does around fill) and goes on; "r": FillRequest.reset()
+        trace = []
+        for o in case["ops"]:
+            raised, out = False, None
+            try:
+                if o is None:
+                    out = []
+                    for v in fr.request():
+                        out.append(v)
+                elif o == "r":
+                    fr.reset()
+                else:
+                    fr.fill(o)
+            except lena.core.LenaStopFill:
+                raised = True
+            except Exception as e:
+                return {"e": exc_name(e), "phase": "opsx", "t": trace}
+            trace.append([out, raised] + _sizes(fr))
+        return {"t": trace}
+    if op in ("splitx", "runx"):
+        out, raised = [], False
+        try:
+            gen = lena.core.Split([fr], bufsize=case["m"]).run(iter(flow)) if op == "splitx" else fr.run(iter(flow))
+            for v in gen:
+                out.append(v)
+        except lena.core.LenaStopFill:
+            raised = True
+        except Exception as e:
+            return {"e": exc_name(e), "phase": op, "r": out}
+        return {"r": out, "raised": raised}
     if op == "split":
         form = case["form"]
         if form == "el":
@@ -322,7 +515,8 @@ def _cfg_req(case):
     return {"caps": caps_of(kind, case.get("hr", True)), "bufsize": case["bufsize"], "reset": case["reset"],
             "bi": buf in ("bi", "both"), "bo": buf in ("bo", "both"), "yor": case["yor"],
             "el": {"k": case["k"], "mut": case["mut"], "map": kind == "map",
-                   "pre": bool(case.get("pre")), "post": bool(case.get("post"))}}
+                   "pre": _code(case.get("pre")), "post": _code(case.get("post")),
+                   "stop": case.get("stop"), "stores": bool(case.get("stores"))}}
 
 
 def model_requests(case):
@@ -339,31 +533,66 @@ def model_requests(case):
     elif op == "split":
         r["xs"] = list(range(case["n"]))
         r["m"] = case["m"]
+    elif op == "opsx":
+        r["ops"] = case["ops"]
+        r["ev"] = case.get("ev", "call")
+    elif op == "splitx":
+        r["xs"] = list(range(case["n"]))
+        r["m"] = case["m"]
+    elif op == "runx":
+        r["xs"] = list(range(case["n"]))
     return [r]
 
 
 def compare(case, res, replies):
+    """the model's prediction against the real code — and, on the same case, the specification side of the theorems
+    (what the driver evaluates besides the transcribed functions) against the real code / a Python reference"""
     m = replies[0]
     if "err" in m:
         return f"model driver error: {m['err']}"
     if "skipped" in res:
         return None
-    if "__timeout__" in res:
+    if "__timeout__" in res or "hang" in res:
         return f"impl did not return (watchdog), model {m}"
     op = case["op"]
+    if op == "init" and m.get("contract") is not None and m["contract"] != (not ref_init(case)):
+        return f"initContract of the model says {m['contract']}, documented contract (Python reference) {sorted(ref_init(case))}"
     if "e" in res or "e" in m:
         if res.get("e") != m.get("e"):
             return f"impl {res} vs model {m}"
         return None
     if op == "init":
-        return None if res == m else f"impl {res} vs model {m}"
+        mm = {k: v for k, v in m.items() if k != "contract"}
+        return None if res == mm else f"impl {res} vs model {mm}"
     if op == "ops":
+        if res["t"] != m["t"]:
+            return f"impl trace {res['t']} vs model {m['t']}"
+        outs = [t[0] for t in res["t"] if t[0] is not None]
+        if "o" in m and m["o"] != [outs] + res["t"][-1][1:]:
+            return f"runOps of the model {m['o']} vs impl requests {outs}, final sizes {res['t'][-1][1:]}"
+        flow = list(range(case["n"]))
+        if m.get("fills", flow) != flow:
+            return f"fills of the model {m['fills']} vs filled values {flow}"
+        if m.get("inv", True) is not True:
+            return "invOps of the model is false (invariant / state after request) on a history the real code agrees with"
+        if m.get("spec") is not None and m["spec"] != [x for o in outs for x in o]:
+            return f"specification of the closed history {m['spec']} vs impl {[x for o in outs for x in o]}"
+        if m.get("rec", flow) != flow:
+            return f"recording element of the model accounts {m['rec']} for the filled values {flow}"
+        return None
+    if op == "opsx":
         return None if res["t"] == m["t"] else f"impl trace {res['t']} vs model {m['t']}"
+    if op in ("splitx", "runx"):
+        if res["r"] != m["r"] or res["raised"] != m["raised"]:
+            return f"impl {res['r']} raised={res['raised']} vs model {m['r']} raised={m['raised']}"
+        return None
     if res["r"] != m["r"]:
         return f"impl {res['r']} vs model {m['r']}"
     if op == "run" and m.get("spec", m["r"]) != res["r"]:
         # the right-hand side of theorem run_blocks, evaluated by the driver
         return f"impl {res['r']} vs block specification of the model {m['spec']}"
+    if op == "run" and case["kind"] == "frseq" and m.get("seqspec", m["r"]) != res["r"]:
+        return f"impl {res['r']} vs rhs of seq_run_blocks {m['seqspec']}"
     return None
 
 
@@ -393,7 +622,7 @@ def ref_run(case, flow):
     block of n values; the final partial block only with yield_on_remainder; nothing for an empty flow."""
     kind, k, mut, n = case["kind"], case["k"], case["mut"], case["bufsize"]
     reset, yor = bool(case["reset"]), case["yor"]
-    pre, post = bool(case.get("pre")), bool(case.get("post"))
+    pre, post = _code(case.get("pre")), _code(case.get("post"))
     out, v = [], []
     for i in range(0, len(flow), n):
         block = flow[i:i + n]
@@ -403,8 +632,8 @@ def ref_run(case, flow):
         if kind == "map":
             out.extend([x + 100] for x in block)
         else:
-            v = v + [x + 10 if pre else x for x in block]
-            out.extend([j] + v + ([99] if post else []) for j in range(k))
+            v = v + [y for x in block for y in pre_ref(pre, x)]
+            out.extend(r for j in range(k) for r in post_ref(post, [j] + v))
             if mut:
                 v = v + [-1]
         if reset:
@@ -416,6 +645,8 @@ def oracle(case, res):
     op = case["op"]
     if "skipped" in res:
         return None     # not executed: earlier cases hung and are reported (see run_impl)
+    if "hang" in res:
+        return "the call did not return: " + res["hang"]
     if op == "init":
         errs = ref_init(case)
         if "e" in res:
@@ -448,7 +679,86 @@ def oracle(case, res):
                 return (f"Split(bufsize={case['m']}) around FillRequest(bufsize={n}) yields {outs}, "
                         f"run on the whole flow would yield {ref}")
         return _accounted(case, outs, flow, closed=True, pending=None)
+    if op == "opsx":
+        return _oracle_opsx(case, res)
+    if op in ("splitx", "runx"):
+        # a wrapped element that stops accepting values: the values it accepted before are processed in consecutive
+        # blocks as ever (only LenaStopFill may come out; checked for yield_on_remainder off, value not stored)
+        stop = case.get("stop")
+        if stop is not None and not case["yor"] and not case.get("stores"):
+            ref = ref_run(case, flow[:stop])
+            if res["r"] != ref:
+                return (f"{op}: element refuses values >= {stop}; results {res['r']}, block reference for the accepted "
+                        f"values {ref}")
+        if stop is None or stop >= L:
+            if res["raised"]:
+                return f"{op}: LenaStopFill although the element accepts every value"
+            if not case["yor"] and res["r"] != ref_run(case, flow):
+                return f"{op}: results {res['r']}, block reference {ref_run(case, flow)}"
+        return None
     raise ValueError(op)
+
+
+def ref_history(case):
+    """Documented behaviour of fill/request/reset() on a history (no lena, no Lean): values are counted in blocks of
+    bufsize since the last emission; the element holds what was filled since it was last reset (FillRequest.reset()
+    empties it and nothing else; an emission empties it iff reset is set); a block is emitted when it is complete —
+    at the latest by the next request() — and request() with yield_on_remainder also emits an incomplete one.
+    Returns None when reset() is called while a complete block waits to be emitted (whether that block still shows
+    its values then depends on the buffer mode: no reference)."""
+    n, k, mut, rst, yor = case["bufsize"], case["k"], case["mut"], bool(case["reset"]), case["yor"]
+    out, v, cnt = [], [], 0
+    waiting = False
+
+    def emit():
+        nonlocal v, cnt
+        out.extend([j] + v for j in range(k))
+        if mut:
+            v = v + [-1]
+        if rst:
+            v = []
+        cnt = 0
+
+    for o in case["ops"]:
+        if o is None:
+            waiting = False
+            if yor and cnt:
+                emit()
+        elif o == "r":
+            if waiting:
+                return None
+            v = []
+        else:
+            v = v + [o]
+            cnt += 1
+            if cnt == n:
+                emit()
+                waiting = True
+    return out
+
+
+def _oracle_opsx(case, res):
+    if case.get("ev") == "request":
+        return None         # the lazy reference adapter, not the code under test: only compared with the model
+    n, yor = case["bufsize"], case["yor"]
+    ops, trace = case["ops"], res["t"]
+    for o, (out, raised, cnt, lin, lout) in zip(ops, trace):
+        if cnt > n:
+            return f"_n_count = {cnt} exceeds bufsize {n} (trace {trace})"
+        if o is None and not raised:
+            if lin or lout:
+                return f"buffers not empty after request(): _buffer_in {lin}, _buffer_out {lout} (trace {trace})"
+            if (yor and cnt != 0) or (not yor and not cnt < n):
+                return f"_n_count = {cnt} after request() (bufsize {n}, yield_on_remainder {yor}; trace {trace})"
+        if raised and (o == "r" or case.get("stop") is None):
+            return f"LenaStopFill from call {o!r} although the element never raises / from reset() (trace {trace})"
+    if case.get("stop") is None and ops and ops[-1] is None:
+        outs = [x for t in trace if t[0] is not None for x in t[0]]
+        ref = ref_history(case)
+        if ref is not None and outs != ref:
+            return (f"history {ops} ('r' = reset(), None = request()): request() results {outs}, "
+                    f"documented block behaviour {ref}")
+    return None
 
 
 def _accounted(case, outs, flow, closed, pending):
@@ -518,13 +828,38 @@ def _reset_opts(kind):
     return [(False, False), (True, False), (True, True)]
 
 
+def _histories(maxlen):
+    """every history over {fill, request(), reset()} of length <= maxlen; fills carry 0, 1, 2, ..."""
+    for l in range(maxlen + 1):
+        for w in itertools.product("frR", repeat=l):
+            ops, j = [], 0
+            for ch in w:
+                if ch == "f":
+                    ops.append(j)
+                    j += 1
+                else:
+                    ops.append(None if ch == "r" else "r")
+            yield ops
+
+
+_STOPS = ((None, False), (2, False), (2, True), (4, False))
+
+
 def gen_cases(ctx):
-    """thorough: the whole scope below, exhaustively, plus seeded long random schedules.
+    """A generator (memory-lean; common.py may take only a prefix of the thorough stream when the anchored source
+    changed, so the cheap, varied groups come first and the big enumeration of request schedules goes by flow length).
+    thorough: the whole scope below, exhaustively, plus seeded long random schedules.
     quick (<= 60 s): the same generators with the exhaustive scopes cut to flows <= 7 (every request
     schedule, 1-result element) and seeded samples of the rest of the thorough scope."""
     thorough = ctx.tier == "thorough"
     rng = ctx.rng
-    cases = []
+    ctx.exhaustive = False   # quick samples part of the scope; thorough adds a sampled part
+    ctx.notes = (["thorough: the scope of the property's quantifier (flows 0..8, bufsize 1..5, every request schedule, "
+                  "every flag combination, Split bufsizes) is enumerated completely; only the schedules for flows "
+                  "9..40 and the long histories with reset()/LenaStopFill are sampled"] if thorough else
+                 ["quick: every request schedule of flows 0..7 (1-result element) enumerated; flows of length 8, "
+                  "the 2-result / state-changing elements and the histories with reset()/LenaStopFill sampled — "
+                  "the thorough tier enumerates them"])
     # --- __init__ ---------------------------------------------------------------------------
     tri = (None, True, False) if thorough else (None, True)
     for caps in itertools.product((False, True), repeat=5):
@@ -533,8 +868,8 @@ def gen_cases(ctx):
                 for bo in tri:
                     for yor in (False, True):
                         for bs in (-1, 0, 1, 3):
-                            cases.append({"op": "init", "caps": list(caps), "bufsize": bs, "reset": reset, "bi": bi,
-                                          "bo": bo, "yor": yor})
+                            yield {"op": "init", "caps": list(caps), "bufsize": bs, "reset": reset, "bi": bi,
+                                   "bo": bo, "yor": yor}
     # --- run --------------------------------------------------------------------------------
     for kind in KINDS_RUN:
         for k in (1, 2):
@@ -551,37 +886,73 @@ def gen_cases(ctx):
                                     c = _base(kind, k, mut, hr, n, buf, reset, yor)
                                     c.update(op="run", n=L)
                                     if kind == "frseq":
-                                        for pre, post in ((False, False), (True, True)):
-                                            cases.append(dict(c, pre=pre, post=post))
+                                        # elements before / after the FillRequest element: none, functions, Run elements
+                                        # that yield 0..2 values per value
+                                        for pre, post in ((0, 0), (1, 1), (2, 0), (0, 2), (2, 2)):
+                                            if (pre == 2 or post == 2) and not thorough and (k == 2 or mut):
+                                                continue
+                                            yield dict(c, pre=pre, post=post)
                                     else:
-                                        cases.append(c)
-    # --- fill/request: every subset of request points --------------------------------------
-    # thorough: flows 0..8, all element variants.  quick: flows 0..7 for the 1-result element; the rest of the
-    # thorough scope (flows of length 8, 2-result / state-changing request) is sampled below.
-    rest = []      # the part of the thorough scope that quick only samples: (kind, k, mut, hr, reset, n, buf, yor, L)
-    for kind in KINDS_FILL:
-        for k, mut in ((1, False), (2, False), (1, True), (2, True)):
-            plain = k == 1 and not mut
-            for hr, reset in ((True, True), (True, False), (False, False)):
-                if not hr and not plain:
+                                        yield c
+    # --- _run_fill_compute / Split with an element that stops accepting values -------------------
+    for kind in ("fc", "fr"):
+        for reset in (True, False):
+            for n in range(1, 5):
+                for buf in ("bi", "bo"):
+                    for yor in (False, True):
+                        for L in range(0, 9):
+                            for stop in (1, 3, 5):
+                                for stores in (False, True):
+                                    c = _base(kind, 1, False, True, n, buf, reset, yor)
+                                    c.update(stop=stop, stores=stores, n=L)
+                                    if buf == "bi" and (thorough or (L + stop) % 2 == 0):
+                                        yield dict(c, op="runx")
+                                    for m in (1, 2, 3, 4, 5, 7, None):
+                                        if thorough or rng.random() < 0.15:
+                                            yield dict(c, op="splitx", m=m)
+    # --- histories with FillRequest.reset() and LenaStopFill -----------------------------------
+    xconfigs = [(kind, k, reset, n, buf, yor) for kind in ("fc", "fr") for k in (1, 2) for reset in (True, False)
+                for n in range(1, 5) for buf in ("bi", "bo") for yor in (False, True)]
+
+    def xcase(cfg, ops, stop, stores, ev="call"):
+        kind, k, reset, n, buf, yor = cfg
+        c = _base(kind, k, False, True, n, buf, reset, yor)
+        c.update(op="opsx", ops=ops, stop=stop, stores=stores, ev=ev, n=sum(1 for o in ops if isinstance(o, int)))
+        return c
+
+    def random_history(lo, hi):
+        ops, j = [], 0
+        for _ in range(rng.randint(lo, hi)):
+            u = rng.random()
+            if u < 0.6:
+                ops.append(j)
+                j += 1
+            else:
+                ops.append(None if u < 0.85 else "r")
+        return ops
+
+    hist = list(_histories(5 if thorough else 3))
+    for cfg in xconfigs:
+        if cfg[1] == 2 and not thorough:
+            continue
+        for ops in hist:
+            for stop, stores in _STOPS:
+                if stop is not None and stop >= sum(1 for o in ops if isinstance(o, int)):
                     continue
-                for n in range(1, 6):
-                    for buf in ("bi", "bo"):
-                        for yor in (False, True):
-                            for L in range(0, 9):
-                                if thorough or (plain and L <= 7):
-                                    for mask in range(1 << L):
-                                        c = _base(kind, k, mut, hr, n, buf, reset, yor)
-                                        c.update(op="ops", n=L, mask=mask)
-                                        cases.append(c)
-                                elif L >= 3:
-                                    rest.append((kind, k, mut, hr, reset, n, buf, yor, L))
-    if not thorough:
-        for _ in range(9000):
-            kind, k, mut, hr, reset, n, buf, yor, L = rng.choice(rest)
-            c = _base(kind, k, mut, hr, n, buf, reset, yor)
-            c.update(op="ops", n=L, mask=rng.randrange(1 << L))
-            cases.append(c)
+                yield xcase(cfg, ops, stop, stores)
+    for _ in range(30000 if thorough else 8000):
+        stop, stores = rng.choice(_STOPS)
+        ops = random_history(4, 14)
+        if rng.random() < 0.5:
+            ops.append(None)
+        yield xcase(rng.choice(xconfigs), ops, stop, stores)
+    # the adapter that keeps generator objects (Python reference), against Eval.atRequest of the model
+    for _ in range(20000 if thorough else 4000):
+        kind, k, reset, n, buf, yor = rng.choice(xconfigs)
+        c = xcase((kind, k, reset, n, "bo" if rng.random() < 0.8 else buf, yor), random_history(3, 14) + [None], None, False,
+                  ev="request")
+        c["mut"] = rng.random() < 0.3
+        yield c
     # --- Split around a FillRequest branch --------------------------------------------------
     for form in ("el", "tuple", "frseq"):
         for kind in ("fr", "fc"):
@@ -596,13 +967,34 @@ def gen_cases(ctx):
                                             continue
                                         c = _base(kind, k, False, True, n, buf, reset, yor)
                                         c.update(op="split", form=form, m=m, n=L)
-                                        cases.append(c)
-    ctx.exhaustive = False   # quick samples part of the scope; thorough adds a sampled part
-    ctx.notes = (["thorough: the scope of the property's quantifier (flows 0..8, bufsize 1..5, every request schedule, "
-                  "every flag combination, Split bufsizes) is enumerated completely; only the schedules for flows "
-                  "9..40 are sampled"] if thorough else
-                 ["quick: every request schedule of flows 0..7 (1-result element) enumerated; flows of length 8 and "
-                  "the 2-result / state-changing elements sampled (9000 cases) — the thorough tier enumerates them"])
+                                        yield c
+    # --- fill/request: every subset of request points, by flow length ---------------------------
+    # thorough: flows 0..8, all element variants.  quick: flows 0..7 for the 1-result element; the rest of the
+    # thorough scope (flows of length 8, 2-result / state-changing request) is sampled below.
+    rest = []      # the part of the thorough scope that quick only samples
+    for L in range(0, 9):
+        for kind in KINDS_FILL:
+            for k, mut in ((1, False), (2, False), (1, True), (2, True)):
+                plain = k == 1 and not mut
+                for hr, reset in ((True, True), (True, False), (False, False)):
+                    if not hr and not plain:
+                        continue
+                    for n in range(1, 6):
+                        for buf in ("bi", "bo"):
+                            for yor in (False, True):
+                                if thorough or (plain and L <= 7):
+                                    for mask in range(1 << L):
+                                        c = _base(kind, k, mut, hr, n, buf, reset, yor)
+                                        c.update(op="ops", n=L, mask=mask)
+                                        yield c
+                                elif L >= 3:
+                                    rest.append((kind, k, mut, hr, reset, n, buf, yor, L))
+    if not thorough:
+        for _ in range(9000):
+            kind, k, mut, hr, reset, n, buf, yor, L = rng.choice(rest)
+            c = _base(kind, k, mut, hr, n, buf, reset, yor)
+            c.update(op="ops", n=L, mask=rng.randrange(1 << L))
+            yield c
     if thorough:
         for _ in range(60000):
             kind = rng.choice(KINDS_FILL)
@@ -616,20 +1008,21 @@ def gen_cases(ctx):
                 if rng.random() < dens:
                     mask |= 1 << j
             c.update(op="ops", n=L, mask=mask)
-            cases.append(c)
-    return cases
+            yield c
 
 
 def nontrivial(case, res):
     if "skipped" in res:
         return False
+    if "hang" in res:
+        return True
     if "e" in res:
         return True
     if case["op"] == "init":
         return False
-    if case["op"] == "ops":
-        return any(t[0] for t in res["t"])
-    return bool(res.get("r"))
+    if case["op"] in ("ops", "opsx"):
+        return any(t[0] for t in res["t"]) or any(t[1] is True for t in res["t"])
+    return bool(res.get("r")) or bool(res.get("raised"))
 
 
 def classify(case, res):
@@ -640,6 +1033,18 @@ def classify(case, res):
         return ["init:" + res.get("e", "ok")]
     labels = [f"{op}:{case['kind']}", f"{op}:{case['buf']}:reset={case['reset']}:yor={case['yor']}",
               f"{op}:bufsize={case['bufsize']}", f"{op}:len={case['n']}"]
+    if op in ("opsx", "splitx", "runx"):
+        labels.append(f"{op}:stop={'no' if case.get('stop') is None else 'yes'}")
+        if op == "opsx":
+            labels.append(f"opsx:ev={case.get('ev')}")
+            labels.append("opsx:" + ("with-reset()" if "r" in case["ops"] else "no-reset()"))
+            if "t" in res and any(t[1] for t in res["t"]):
+                labels.append("opsx:LenaStopFill-" + ("from-request" if any(t[1] and t[0] is not None for t in res["t"])
+                                                      else "from-fill"))
+        elif res.get("raised"):
+            labels.append(f"{op}:LenaStopFill-escaped")
+    if op == "run" and case["kind"] == "frseq":
+        labels.append(f"run:frseq:pre={_code(case.get('pre'))}:post={_code(case.get('post'))}")
     if op == "ops":
         labels.append(f"ops:requests={bin(case['mask']).count('1') + 1}")
         misaligned = any((case["mask"] >> j) & 1 and j % case["bufsize"] for j in range(case["n"]))
@@ -658,12 +1063,36 @@ def signature(case, failure):
     concrete shrunk input), so that one defect is reported a few times, not once per failing schedule"""
     if case["op"] == "init":
         return "init:" + ",".join(f"{k}={case[k]}" for k in sorted(case) if k != "op")
-    return f"{case['op']}:kind={case['kind']},buf={case.get('buf')},reset={case['reset']},yor={case['yor']}"
+    extra = ""
+    if case["op"] in ("opsx", "splitx", "runx"):
+        extra = f",stop={case.get('stop') is not None},ev={case.get('ev', 'call')}"
+    return f"{case['op']}:kind={case['kind']},buf={case.get('buf')},reset={case['reset']},yor={case['yor']}{extra}"
 
 
 def shrink(case):
     op = case["op"]
     if op == "init":
+        return
+    if op == "opsx":
+        ops = case["ops"]
+        for i in range(len(ops)):
+            # drop one call; renumber the fills
+            rest, j = [], 0
+            for o in ops[:i] + ops[i + 1:]:
+                if isinstance(o, int):
+                    rest.append(j)
+                    j += 1
+                else:
+                    rest.append(o)
+            yield dict(case, ops=rest, n=j)
+        if case["bufsize"] > 1:
+            yield dict(case, bufsize=case["bufsize"] - 1)
+        if case["k"] > 1:
+            yield dict(case, k=1)
+        if case.get("stop") is not None:
+            yield dict(case, stop=None, stores=False)
+            if case["stop"] > 0:
+                yield dict(case, stop=case["stop"] - 1)
         return
     if case["n"] > 0:
         c = dict(case, n=case["n"] - 1)
